@@ -82,7 +82,7 @@ func bytesOfIndex(i uint64, n int) []byte {
 }
 
 func runC09(r *engine.Run) {
-	r.Rule = "E1 enumeration per decoder entry point, oracle: returns a value or an error, no panic (recovered and reported per input), no hang (watchdog), input buffer and its spare capacity byte-identical afterwards, stream decoders make progress (#commands <= len(input)). Frame decode: control-byte product (MHDR x length 0..40 x FCtrl x byte1 x FPort byte x filler) plus lengths up to 512 with four fillers and 17 lengths around 255x16 bytes and 2^16 (the payload cipher's 8-bit block counter, 16-bit length fields), followed on accepted frames by FOpts/FRMPayload command decode and decrypt-then-decode with two keys; base64: all strings of length <= 4 over a 10-symbol alphabet; MAC command stream decoders: all byte strings of length <= 3 x direction x 2 registry states, lengths 4..32 with all 65536 leading byte pairs; decrypt-then-decode with plaintext ranging over all 2-byte strings; join-accept decrypt over ciphertext lengths 0..40 and plaintext control bytes; CFList lengths 0..20 x 256 types; MACCommand CID x direction x length 0..8; the four application-layer command decoders: all strings <= 2 bytes, 3-byte strings (quick: 18 leading CIDs; thorough: all), (CID, second byte) all 65536 x lengths 0..40 x 2 fillers, every length 41..512 x leading CID x 3 fillers (several hundred commands in one payload); backend text/JSON unmarshalers: all strings of length <= 5 over a 14-symbol alphabet, well-formed text of every length 0..130 in 8 patterns x {plain, 0x} (also through json.Unmarshal into a payload struct) and every payload struct with each field (and each pair, thorough) set to each of 10 JSON atoms. Cost: for every text decoder, the frame text decoder, JSON into a payload struct and the frame + MAC-command stream decoder, bytes allocated on inputs of 16k / 32k / 64k characters (four patterns) may not more than triple per doubling (a deterministic proxy for 'time linear in the input'). Non-trivial: the decoder returned a value (not an error)."
+	r.Rule = "E1 enumeration per decoder entry point, oracle: returns a value or an error, no panic (recovered and reported per input), no hang (watchdog), input buffer and its spare capacity byte-identical afterwards, stream decoders make progress (#commands <= len(input)). Frame decode: control-byte product (MHDR x length 0..40 x FCtrl x byte1 x FPort byte x filler) plus lengths up to 512 with four fillers and 17 lengths around 255x16 bytes and 2^16 (the payload cipher's 8-bit block counter, 16-bit length fields), followed on accepted frames by FOpts/FRMPayload command decode and decrypt-then-decode with two keys; base64: all strings of length <= 4 over a 10-symbol alphabet; MAC command stream decoders: all byte strings of length <= 3 x direction x 2 registry states, lengths 4..32 with all 65536 leading byte pairs; decrypt-then-decode with plaintext ranging over all 2-byte strings; join-accept decrypt over ciphertext lengths 0..40 and plaintext control bytes; CFList lengths 0..20 x 256 types; MACCommand CID x direction x length 0..8; the four application-layer command decoders: all strings <= 2 bytes, 3-byte strings (quick: 18 leading CIDs; thorough: all), (CID, second byte) all 65536 x lengths 0..40 x 2 fillers, every length 41..512 x leading CID x 3 fillers (several hundred commands in one payload); backend text/JSON unmarshalers: all strings of length <= 5 over a 14-symbol alphabet, well-formed text of every length 0..130 in 8 patterns x {plain, 0x} (also through json.Unmarshal into a payload struct) and every payload struct with each field (and each pair, thorough) set to each of 10 JSON atoms; every single-position replacement / insertion over a 16-symbol alphabet in 8 well-formed seed texts (timestamps, identifiers, numbers, a base64 frame) through every text decoder and as JSON members of ULMetaData. Cost: for every text decoder, the frame text decoder, JSON into a payload struct and the frame + MAC-command stream decoder, bytes allocated on inputs of 16k / 32k / 64k characters (four patterns) may not more than triple per doubling (a deterministic proxy for 'time linear in the input'). Non-trivial: the decoder returned a value (not an error)."
 	frameHistory(r, 2)
 	manyKeysHistory(r)
 	r.Rule += " E3 (schedules): the FOpts and FRMPayload MAC-command decoders against two concurrent registrations of proprietary commands, every interleaving (preemption-bounded and unbounded with state-key pruning), sync.RWMutex modelled with pending writers excluding new readers: every thread returns, no deadlock."
@@ -596,6 +596,49 @@ func runC09(r *engine.Run) {
 			js := []byte(`{"DevEUI":"` + strings.Replace(prefix+body, `"`, "", -1) + `","DevAddr":"` + strings.Replace(prefix+body, `"`, "", -1) + `"}`)
 			c09Total(c, "json.Unmarshal(JoinReqPayload)", js, func(in []byte) error { var v backend.JoinReqPayload; return json.Unmarshal(in, &v) })
 		}
+	})
+	// structure-aware mutation of well-formed texts of each kind: every position of a valid timestamp,
+	// identifier, percentage, frequency and base64 frame replaced by (and, separately, extended with)
+	// each symbol of a 16-symbol alphabet; through every text decoder, and as a JSON member
+	seeds := []string{"2020-02-29T10:00:00Z", "2021-13-01T00:00:00+05:30", "0102030405060708", "0x01020304", "868.1", "0.25", "QAQDAgEAAQAKAQID", "1.0"}
+	mutSym := []byte(" tzTZ09:-+.xXf=\"")
+	var nMut uint64
+	for _, sd := range seeds {
+		nMut += uint64(len(sd)+1) * uint64(len(mutSym)) * 2
+	}
+	r.PartDims("backend/text-mutations", []string{fmt.Sprintf("seed text:%d", len(seeds)), "position x symbol:16 x {replace, insert}", "decoder:9 + frame text + JSON member (inner)"}, nMut, func(c *engine.Case) {
+		i := c.Index
+		var sd string
+		for _, x := range seeds {
+			n := uint64(len(x)+1) * uint64(len(mutSym)) * 2
+			if i < n {
+				sd = x
+				break
+			}
+			i -= n
+		}
+		insert := i%2 == 1
+		i /= 2
+		sym := mutSym[i%uint64(len(mutSym))]
+		pos := int(i / uint64(len(mutSym)))
+		var t []byte
+		switch {
+		case insert:
+			t = append(append(append(t, sd[:pos]...), sym), sd[pos:]...)
+		case pos < len(sd):
+			t = []byte(sd)
+			t[pos] = sym
+		default:
+			t = []byte(sd) // the unmodified seed
+		}
+		for _, d := range textDecs {
+			c09Total(c, d.name, append([]byte(nil), t...), d.fn)
+		}
+		var p lorawan.PHYPayload
+		c09Total(c, "PHYPayload.UnmarshalText", append([]byte(nil), t...), func(in []byte) error { return p.UnmarshalText(in) })
+		member := strings.NewReplacer(`"`, "", `\\`, "").Replace(string(t))
+		js := []byte(`{"RecvTime":"` + member + `","DataRate":1,"ULFreq":` + member + `,"GWInfo":[{"ID":"` + member + `"}]}`)
+		c09Total(c, "json.Unmarshal(ULMetaData)", js, func(in []byte) error { var v backend.ULMetaData; return json.Unmarshal(in, &v) })
 	})
 	// cost grows linearly with the input: bytes allocated while decoding inputs of 16k, 32k and 64k
 	// characters (allocation volume is a deterministic function of the code path, unlike wall time);
